@@ -21,6 +21,32 @@ func (g *G) templateStmt() *lang.Node {
 	if g.chance(220, "tplSlot") {
 		return g.slotReuseTemplate(id, n)
 	}
+	if g.chance(70, "tplTwin") {
+		// two function literals that compile to identical instruction bytes
+		// (no constants inside), the later one possibly failing when called:
+		// whatever merges or caches functions by content shows up in results
+		// and in error positions
+		g.feat("tpl:twin-functions")
+		ta, tb, r := n("twa"), n("twb"), n("twr")
+		op := []string{"/", "%", "+", "-", "<"}[g.draw(5, "twinOp")]
+		mkf := func(x, y string) *lang.Node {
+			return lang.Func([]string{x, y}, false, lang.Block(lang.Return(lang.Binary(op, lang.Ident(x), lang.Ident(y)))))
+		}
+		a1, a2 := g.intLit(), g.nonZeroInt()
+		if g.chance(350, "twinFail") {
+			if op == "/" || op == "%" {
+				a2 = lang.Int(0)
+			} else {
+				a2 = lang.Array()
+			}
+			g.feat("tpl:twin-functions:failing")
+		}
+		g.declare(&vinfo{name: ta, t: TFn, arity: 2, ptys: []Ty{TInt, TInt}})
+		g.declare(&vinfo{name: tb, t: TFn, arity: 2, ptys: []Ty{TInt, TInt}})
+		g.declare(&vinfo{name: r, t: TArr, elem: TInt})
+		return seq(lang.Define(ta, mkf(n("x"), n("y"))), lang.Define(tb, mkf(n("p"), n("q"))),
+			lang.Define(r, lang.Array(lang.Call(lang.Ident(ta), lang.Int(7), lang.Int(2)), lang.Call(lang.Ident(tb), a1, a2))))
+	}
 	switch g.weighted("template", 6, 6, 5, 5, 4, 3, 4, 3) {
 	case 0:
 		// counter factory: closure updating a captured variable
